@@ -141,6 +141,15 @@ func RunMain(id, tier string, only int, seedOverride *int64) int {
 	self, _ := os.Executable()
 	raceBin := os.Getenv("VCHECK_RACE_BIN")
 	passes := p.Passes(tier)
+	if only := os.Getenv("VERIF_ONLY_PASS"); only != "" { // development aid
+		var keep []Pass
+		for _, ps := range passes {
+			if ps.Name == only {
+				keep = append(keep, ps)
+			}
+		}
+		passes = keep
+	}
 	var runs []*shardRun
 	for _, ps := range passes {
 		if ps.Race && raceBin == "" {
